@@ -214,18 +214,19 @@ def _run_func(call: GeneratorCall) -> Module:
     # making the name depend on which generators have handed it on so far.
     already_named = m._generated_by is not None
 
-    # Give the result a reference back to the generating `Call`
-    m._generated_by = call
-
     if not already_named:
         # Module naming
         # If the Module that comes back is anonymous, start by giving it a name equal to the Generator's
-        if m.name is None:
-            m.name = call.gen.name
+        name = m.name if m.name is not None else call.gen.name
 
         # If it has a nonzero number of parameters, add a unique suffix per its parameter-values
+        # Note this can fail, for parameter values that cannot be encoded. Nothing has been changed at that point.
         if hasparams(call.gen.Params):
-            m.name += "(" + _unique_name(call.params) + ")"
+            name += "(" + _unique_name(call.params) + ")"
+        m.name = name
+
+    # Give the result a reference back to the generating `Call`
+    m._generated_by = call
 
     return m
 
